@@ -52,6 +52,8 @@ fn main() {
                 "exact" => exact::replay(&ctx, case),
                 "ctor" => ctors::replay(&ctx, case),
                 "alias" | "tree" | "tree_sample" => weighted::replay(&ctx, case),
+                "affine" => affine::replay(&ctx, case),
+                "dirichlet" | "geom" => multi::replay(&ctx, case),
                 other => { eprintln!("no replay handler for case kind '{other}'"); false }
             };
             if !ok { std::process::exit(2); }
@@ -148,6 +150,18 @@ fn main() {
                 "C05" => {
                     termination::run(&ctx);
                     ctx.finish(termination::RULE, &termination::ASSUME, false)
+                }
+                "C07" => {
+                    affine::run(&ctx);
+                    ctx.finish("case = (base cell of a listed family, affine pair (a,b), stream): the base cell and the cell with transformed location/scale are sampled on identical (cloned) streams, random and with one boundary-lattice word; oracle: y' = a + b y within 8 ulp of the largest magnitude involved (log space for LogNormal), equal word counts; Normal/LogNormal bit-exact against mean + std_dev * StandardNormal and from_zscore(z) for generated z incl. +-0, +-inf, NaN, subnormals; branching samplers (InverseGaussian, Pert, Triangular) judged strictly for dyadic factors on lattice parameters, branch flips for other factors are counted, not judged; non-trivial = (a,b) != (0,1) and >= 1 word consumed", &["b ranges over 2^-8..2^8 (dyadic) and [1e-3,1e3]; a over +-1e3", "negative scale only for Normal (documented)"], false)
+                }
+                "C11" => {
+                    multi::run_c11(&ctx);
+                    ctx.finish("case = alpha vector in E (fixed class representatives + random vectors: all<=0.1, all>0.1, mixed, straddling 0.1 +- ulp, lengths 2..64) x float type; n samples per vector through sample_to_slice, every 64th also through sample() on a cloned stream (bit equality + word count); per sample: length, components in [0,1], no NaN, |sum-1| <= 4 len eps; law: marginals x_i ~ Beta(a_i, a_0-a_i) for i<8 and 8 random i, ratios x_i/(x_i+x_j) ~ Beta(a_i,a_j) for adjacent pairs, (first,last) and 8 random pairs, each by T1/T2/T3 with confirmation; evaluations = samples drawn; non-trivial = vector with len>=3 and non-equal alphas, or straddling 0.1", &ASSUME_LAW, false)
+                }
+                "C12" => {
+                    multi::run_c12(&ctx);
+                    ctx.finish("4 samplers x {f32,f64}: n points each; per point norm predicate (|norm-1| <= 8 eps circle/sphere, norm <= 1+4 eps disc/ball, no NaN); uniformity on product bins (circle 720 angle bins; disc r^2 x angle 32x32; sphere z x longitude 32x32; ball r^3 x z/r x longitude 16^3) and their 1-D marginals by per-bin KL-Chernoff and a global multinomial KL test, confirmed on 4n; plus every boundary-lattice word at stream positions 0..7 for the norm/NaN clause; evaluations = points + adversarial calls; non-trivial = bins with count >= 1000 + adversarial calls that consumed the word", &ASSUME_LAW, false)
                 }
                 _ => {
                     eprintln!("unknown property {id}");
